@@ -40,7 +40,10 @@ def emit_cases(ctx, rep, dialect, maxlen):
         raise RuntimeError("reference grammar violates its own theorems: " + r.violation)
     rep.tlc("MC_Grammar %s, all token sequences <= %d" % (dialect, maxlen), r)
     rep.exhaustive["token sequences <= %d (%s)" % (maxlen, dialect)] = True
-    return r.printed
+    cases = r.printed
+    for c in cases:
+        c["o"] = loaders.ref_outcome(c["o"])
+    return cases
 
 
 def _one(job):
